@@ -89,6 +89,11 @@ theorem newest_version_selected_bolt_partial (s : Bolt) (hs : BSorted s) (name :
 def exPkt (n : Nat) : Pkt := { name := [⟨8, [n]⟩], fb := none, content := [n] }
 def exBolt : Bolt := boltPut (boltPut [] ⟨[⟨8, [1]⟩, ⟨8, [1]⟩], 5, exPkt 1⟩) ⟨[⟨8, [1]⟩, ⟨8, [2]⟩], 3, exPkt 2⟩
 
+example : BSorted exBolt ∧ (boltScan exBolt (encKey [⟨8, [1]⟩])).length ≤ boltScanLimit := by
+  refine ⟨?_, by decide⟩
+  unfold BSorted
+  decide
+
 /-- non-vacuity: byte order ≠ version order; the newer packet (first key) is chosen -/
 example : boltGet exBolt [⟨8, [1]⟩] true = some (exPkt 1) := by decide
 
@@ -252,7 +257,7 @@ theorem timeout_within_budget_absorbed (serve : Name → Bool → Option Pkt) (c
     (c.step serve (.timeout o (some k))).2.cbs = [] ∧
     (c.step serve (.timeout o (some k))).2.sent = [(o, some k)] := by
   simp only [Client.step, hp, hl, if_true]
-  simp [Client.getCons, Client.setCons, List.getD_eq_getElem?_getD, List.getElem?_set, ho]
+  simp [Client.getCons, Client.setCons, List.getD_eq_getElem?_getD, ho]
 
 /-! ### Produce and Consume together -/
 
